@@ -18,6 +18,7 @@ def run(res, tier, replay=None):
     c01.run_a(prog, res)
     c01.run_d(prog, res)
     c01.run_g(prog, res)
+    c01.run_c1(prog, res)
     if tier == "thorough":
         flt = c01.scope_filter()
         common.thorough_mutations(res, "C01", {
@@ -26,6 +27,7 @@ def run(res, tier, replay=None):
             "C01.g": lambda p, r: c01.run_g(p, r, floor=0),
             "C01.a": lambda p, r: c01.run_a(p, r),
             "C01.d": lambda p, r: c01.run_d(p, r),
+            "C01.c1": lambda p, r: c01.run_c1(p, r),
         })
     res.assumptions = common.ASSUMPTIONS
     res.explanation = (
